@@ -98,6 +98,80 @@ Proof.
     rewrite ndot_add by exact L. apply map_ext. intros Jk. num_R. lra.
 Qed.
 
+(* ---- clamped differences (over R): exact slope of affine outputs, whichever directions are allowed *)
+Lemma fd_aff (a : list R) : forall (c0 : list R) (u1 u2 h : R), h <> 0 -> length a = length c0 -> u2 - u1 = h ->
+  fd_diff (aff a c0 u1) (aff a c0 u2) h = a.
+Proof.
+  induction a as [|ai r IH]; intros c0 u1 u2 h Hh L E; destruct c0 as [|ci c0]; simpl in L; try discriminate; [reflexivity|].
+  unfold fd_diff, aff in *. simpl. f_equal.
+  - num_R. replace (ai * u2 + ci - (ai * u1 + ci)) with (ai * h) by (rewrite <- E; ring). field. exact Hh.
+  - apply IH; [exact Hh | lia | exact E].
+Qed.
+
+Lemma zeros_aff (a c0 : list R) (u : R) : length a = length c0 ->
+  map (fun _ : R => nzero (T:=R)) (aff a c0 u) = map (fun _ : R => 0) a.
+Proof.
+  revert c0. induction a as [|ai r IH]; intros c0 L; destruct c0 as [|ci c0]; simpl in L; try discriminate; [reflexivity|].
+  unfold aff in *. simpl. f_equal. apply IH. lia.
+Qed.
+
+Lemma clampedDiff_affine (a c0 : list R) (u h : R) : 0 < h -> length a = length c0 ->
+  clampedDiff (aff a c0 u) (Some (aff a c0 (u + h))) None h = a /\
+  clampedDiff (aff a c0 u) None (Some (aff a c0 (u - h))) h = a /\
+  clampedDiff (aff a c0 u) (Some (aff a c0 (u + h))) (Some (aff a c0 (u - h))) h = a /\
+  clampedDiff (aff a c0 u) None None h = map (fun _ : R => 0) a.
+Proof.
+  intros Hh L. unfold clampedDiff. repeat split.
+  - apply fd_aff; [lra | exact L | ring].
+  - apply fd_aff; [lra | exact L | ring].
+  - apply fd_aff; [unfold ntwo; num_R; lra | exact L | unfold ntwo; num_R; ring].
+  - apply zeros_aff. exact L.
+Qed.
+
+Lemma inRange_true (x1 x2 lo hi : R) : inRange x1 x2 lo hi = true <-> lo <= x1 <= hi /\ lo <= x2 <= hi.
+Proof.
+  unfold inRange. num_R. rewrite !andb_true_iff, !Rleb_true. tauto.
+Qed.
+
+Lemma clipc_inside (x lo hi : R) : lo <= x <= hi -> clipc x lo hi = x.
+Proof.
+  intros [A B]. unfold clipc. num_R.
+  destruct (Rltb x lo) eqn:E1; [apply Rltb_true in E1; lra|].
+  destruct (Rltb hi x) eqn:E2; [apply Rltb_true in E2; lra|]. reflexivity.
+Qed.
+
+(* the control loop of mjd_stepFD on an output that is affine in the (clamped) control: the row is the exact
+   slope whenever at least one nudge is allowed and zero otherwise; nudged evaluations never leave the range *)
+Lemma ctrl_column_affine (a c0 : list R) (limited centered : bool) (c eps lo hi : R) :
+  0 < eps -> length a = length c0 ->
+  ctrl_column limited centered c eps lo hi (gclip limited lo hi a c0) =
+    (if nudge_fwd limited c eps lo hi || nudge_back limited centered c eps lo hi then a else map (fun _ : R => 0) a) /\
+  (limited = true -> nudge_fwd limited c eps lo hi = true -> lo <= c <= hi /\ lo <= c + eps <= hi) /\
+  (limited = true -> nudge_back limited centered c eps lo hi = true -> lo <= c - eps <= hi /\ lo <= c <= hi).
+Proof.
+  intros He L.
+  assert (Bf : limited = true -> nudge_fwd limited c eps lo hi = true -> lo <= c <= hi /\ lo <= c + eps <= hi).
+  { intros -> F. unfold nudge_fwd in F. simpl in F. num_R. apply inRange_true in F. exact F. }
+  assert (Bb : limited = true -> nudge_back limited centered c eps lo hi = true -> lo <= c - eps <= hi /\ lo <= c <= hi).
+  { intros -> B. unfold nudge_back in B. apply andb_true_iff in B. destruct B as [_ B]. simpl in B. num_R. apply inRange_true in B. exact B. }
+  split; [|split; assumption].
+  destruct (clampedDiff_affine a c0 c eps He L) as [F1 [F2 [F3 F4]]].
+  unfold ctrl_column.
+  assert (G0 : (nudge_fwd limited c eps lo hi || nudge_back limited centered c eps lo hi) = true -> gclip limited lo hi a c0 c = aff a c0 c).
+  { intros O. unfold gclip. destruct limited; [|reflexivity]. rewrite clipc_inside; [reflexivity|].
+    apply orb_true_iff in O. destruct O as [O|O]; [destruct (Bf eq_refl O) | destruct (Bb eq_refl O)]; lra. }
+  assert (Gp : nudge_fwd limited c eps lo hi = true -> gclip limited lo hi a c0 (c + eps) = aff a c0 (c + eps)).
+  { intros O. unfold gclip. destruct limited; [|reflexivity]. rewrite clipc_inside; [reflexivity|]. destruct (Bf eq_refl O); lra. }
+  assert (Gm : nudge_back limited centered c eps lo hi = true -> gclip limited lo hi a c0 (c - eps) = aff a c0 (c - eps)).
+  { intros O. unfold gclip. destruct limited; [|reflexivity]. rewrite clipc_inside; [reflexivity|]. destruct (Bb eq_refl O); lra. }
+  num_R.
+  destruct (nudge_fwd limited c eps lo hi) eqn:EF; destruct (nudge_back limited centered c eps lo hi) eqn:EB; simpl orb; cbv iota.
+  - rewrite G0, Gp, Gm by reflexivity. exact F3.
+  - rewrite G0, Gp by reflexivity. exact F1.
+  - rewrite G0, Gm by reflexivity. exact F2.
+  - unfold clampedDiff, gclip. apply zeros_aff. exact L.
+Qed.
+
 (* polynomial damping, away from v = 0 on the positive side: the loops compute
    P(x) = b + sum p_i x^(i+1) and b + sum (i+2) p_i x^(i+1), and the second is the derivative of
    x P(x) in the sense of the exact second-order expansion below (coefficient-wise product rule) *)
